@@ -375,6 +375,7 @@ pub fn run(a: &Args) -> Option<Report> {
         ("C08", "hostile") => Some(run_seq(a, true)),
         ("C07", "concurrent") | ("C07", "concurrent-hooks") | ("C07", "asan") => Some(run_concurrent(a)),
         ("C07", "directed") => Some(run_directed(a)),
+        ("C07", "absolute-race") => Some(run_absolute_race(a)),
         _ => None,
     }
 }
@@ -708,6 +709,86 @@ fn run_concurrent(a: &Args) -> Report {
             rep.sample(jo! {"run" => desc, "renders" => renders.len(), "recorded_samples" => total_n, "final_excerpt" => renders.last().map(|x| x.2.chars().take(300).collect::<String>()).unwrap_or_default()});
         }
     }
+    rep
+}
+
+/// Counters driven by absolute() from two threads at the same moment: once both calls have returned, a render must
+/// show the higher of the two values (a counter shows its highest absolute value, whoever stored last).
+fn run_absolute_race(a: &Args) -> Report {
+    let mut rep = Report::new("C07", &a.leg, a.seed);
+    let mut cfg = gen_cfg(&mut Rng::new(a.shard_seed()), false);
+    cfg.unit_suffix = false;
+    cfg.overrides.clear();
+    cfg.global_labels.clear();
+    let e = Arc::new(build(&cfg));
+    let rounds = a.budget(60_000, 3_000_000);
+    let round = Arc::new(AtomicU64::new(0));
+    let done = Arc::new(AtomicU64::new(0));
+    let mut hs = Vec::new();
+    for t in 0..2u64 {
+        let (e, round, done) = (e.clone(), round.clone(), done.clone());
+        hs.push(std::thread::spawn(move || {
+            let c = e.rec.register_counter(&Key::from_name("abs_total"), &MD);
+            let mut k = 1u64;
+            loop {
+                let mut spins = 0u32;
+                loop {
+                    let cur = round.load(Ordering::Acquire);
+                    if cur == u64::MAX {
+                        return;
+                    }
+                    if cur >= k {
+                        break;
+                    }
+                    spins += 1;
+                    if spins % 2048 == 0 {
+                        std::thread::yield_now();
+                    }
+                }
+                // thread 0 stores the higher value in odd rounds, thread 1 in even rounds
+                let hi = 2 * k;
+                c.absolute(if (k + t) % 2 == 0 { hi } else { hi - 1 });
+                done.fetch_add(1, Ordering::AcqRel);
+                k += 1;
+            }
+        }));
+    }
+    let mut bad: Vec<String> = Vec::new();
+    let mut checked = 0u64;
+    for k in 1..=rounds {
+        round.store(k, Ordering::Release);
+        let mut spins = 0u32;
+        while done.load(Ordering::Acquire) < 2 * k {
+            spins += 1;
+            if spins % 2048 == 0 {
+                std::thread::yield_now();
+            }
+        }
+        // render every few rounds (rendering dominates the cost); the value shown must be this round's higher value
+        if k % 4 == 0 || k < 64 {
+            checked += 1;
+            let text = e.handle.render();
+            let shown: Option<u64> = text.lines().find(|l| l.starts_with("abs_total ")).and_then(|l| l["abs_total ".len()..].trim().parse().ok());
+            if shown != Some(2 * k) {
+                if bad.len() < 5 {
+                    bad.push(format!("round {}: absolute({}) and absolute({}) both returned, render shows {:?}", k, 2 * k, 2 * k - 1, shown));
+                }
+                if bad.len() >= 5 {
+                    break;
+                }
+            }
+        }
+    }
+    round.store(u64::MAX, Ordering::Release);
+    for h in hs {
+        let _ = h.join();
+    }
+    rep.count("rounds_rendered", checked);
+    rep.case(mix(checked, 7), true);
+    if !bad.is_empty() {
+        rep.violation("C07:counter-below-highest-absolute", jo! {"what" => "after two concurrent absolute() calls returned, the rendered counter is not the higher of the two values", "examples" => J::A(bad.into_iter().map(J::s).collect())});
+    }
+    rep.sample(jo! {"absolute_race_rounds_rendered" => checked});
     rep
 }
 
